@@ -278,6 +278,35 @@ func TestVerifC03SniffUDP(t *testing.T) {
 		r.Do(entryHello, b)
 	})
 	vfC03Prefixes(rng, [][]byte{{0x01}, {0x01, 0x00, 0x00, 0x00}, {0x01, 0x00, 0xff, 0xff}, {0x01, 0xff, 0xff, 0xff}, {0x02}, hello[:43]}, 64, func(b []byte) { r.Do(entryHello, b) })
+	// aggregate: a well-formed ClientHello (padding extension) of 2..50 KiB cut into many CRYPTO frames,
+	// shuffled, in one Initial: the sum of the frame lengths is what grows
+	for i, c := range [][2]int{{2000, 10}, {4000, 100}, {8000, 500}, {16000, 1000}, {30000, 4000}, {50000, 200}, {50000, 9000}} {
+		name := fmt.Sprintf("agg-%d.c03.verif", i)
+		h := vfC03ClientHelloPad(name, c[0])
+		piece := (len(h) + c[1] - 1) / c[1]
+		var frs [][]byte
+		for off := 0; off < len(h); off += piece {
+			end := off + piece
+			if end > len(h) {
+				end = len(h)
+			}
+			frs = append(frs, vfC03CryptoFrame(uint64(off), uint64(end-off), h[off:end], 0))
+		}
+		rng.Shuffle(len(frs), func(x, y int) { frs[x], frs[y] = frs[y], frs[x] })
+		pkt := vfC03SealInitial(vfC03Initial{Version: []uint32{vfC03V1, vfC03V2}[i%2], DCID: vfC03Fill(rng, 2, 8), PN: 1, PNLen: 2, Frames: vfC03Cat(frs...)})
+		if len(pkt) > 65000 {
+			continue
+		}
+		r.Canary(entry, vfC03CaseID(entry, pkt), map[string]any{"hello_bytes": len(h), "crypto_frames": len(frs), "datagram_bytes": len(pkt)}, func() error {
+			r.Log(entry, pkt, true)
+			k.Count("ev_aggregate_hellos", 1)
+			addr := "9.9.9.9:443"
+			if err := sn.UDP(vfExact(pkt), &addr); err != nil || addr != name+":443" {
+				return fmt.Errorf("ClientHello of %d bytes in %d shuffled CRYPTO frames: address became %q, err=%v", len(h), len(frs), addr, err)
+			}
+			return nil
+		})
+	}
 	canary()
 	canary()
 	k.Sample(map[string]any{"entries": []string{entry, entryHello}, "inputs": k.Counter("ev_inputs"), "rewritten": k.Counter("ev_rewritten")})
